@@ -1,6 +1,6 @@
 """C18 — a crash while writing a checkpoint never loses the last good checkpoint.
 
-Lean side : TTGen/SavePlan.lean regenerated from save_parameters' AST; theorems in
+Lean side : TTGen/C18_SavePlan.lean regenerated from save_parameters' AST; theorems in
             TTProofs/Props/C18.lean (crash_safe_step by decide over 27 states x crash points,
             crash_safe_forever by induction over any number of interrupted writes).
 Tie       : translator + exact correspondence: the real save_parameters runs in a forked child
@@ -259,7 +259,7 @@ def run(ck: Check):
     if not tr_ok:
         ck.notes.append("translator: " + note)
     ok, broken = ck.lean_side(
-        {"TTGen/SavePlan.lean": lean_src}, ["TTGen.SavePlan", "TTProofs.Props.C18", "drv_c18"], "TTProofs/Props/C18.lean"
+        {"TTGen/C18_SavePlan.lean": lean_src}, ["TTGen.C18_SavePlan", "TTProofs.Props.C18", "drv_c18"], "TTProofs/Props/C18.lean"
     )
     ck.extra["translator_recognised_source"] = tr_ok
 
